@@ -3,6 +3,7 @@ package harness
 import (
 	"context"
 	"fmt"
+	"math"
 	"time"
 
 	"verif/simrt"
@@ -317,11 +318,22 @@ func genJoin(engine, prop string, r *simrt.SplitMix) *JoinSc {
 
 	sc.Horizon = joinHorizon(sc)
 
+	if (prop == "C03" || prop == "C09" || prop == "C08" || prop == "C11") && sc.Timeout <= 0 && sc.Stop == nil && r.Intn(8) == 0 {
+		// a timeout of centuries: indistinguishable from none within any run; the scenario
+		// (pauses, horizon) stays the one drawn for "no timeout"
+		sc.Timeout = pick(r, int64(math.MaxInt64), math.MaxInt64-1, 1<<62, 1<<61+7, 4_000_000_000_000_000_000)
+	}
+
 	return sc
 }
 
 func joinHorizon(sc *JoinSc) int64 {
-	t := 4*max(sc.Timeout, 0) + sc.StallFor + sc.CloseDly
+	to := max(sc.Timeout, 0)
+	if to > 1<<50 {
+		to = 0 // "centuries": never expires within a run
+	}
+
+	t := 4*to + sc.StallFor + sc.CloseDly
 
 	slices := 1
 
